@@ -276,3 +276,15 @@ Proof.
   intros WF HA HB c Hc.
   rewrite (placeholder_files_complete nc cs fsa fa ca WF HA c Hc), (placeholder_files_complete nc cs fsb fb cb WF HB c Hc). reflexivity.
 Qed.
+
+(* C11: every class of another library that is registered for a placeholder is declared in the placeholder file of its module *)
+Theorem placeholder_declares_every_class nc cs fs0 fs created :
+  well_formed cs -> go_outside nc cs (fs0, []) = Ok (fs, created) ->
+  forall c, In c cs -> exists pre post, fs_lookup (file_of c) fs = Some (pre ++ text_of nc c ++ post).
+Proof.
+  intros WF H c Hc. rewrite (placeholder_files_complete nc cs fs0 fs created WF H c Hc).
+  assert (IN : In c (filter (same_mod c) cs)) by (apply filter_In; split; [exact Hc|unfold same_mod; apply str_eqb_refl]).
+  destruct (in_split _ _ IN) as (l1 & l2 & E). rewrite E, map_app, concat_app. cbn [map List.concat].
+  exists (header_of nc c ++ List.concat (map (text_of nc) l1)), (List.concat (map (text_of nc) l2)).
+  rewrite <- !app_assoc. reflexivity.
+Qed.
